@@ -187,7 +187,13 @@ def run_check(args):
         if det["mismatches"]:
             out("HARNESS-ERROR simulator is not deterministic: " + json.dumps(det["detail"]))
             return batch.EXIT_HARNESS
-    results = batch.run_seeds(cfg["engine"], seeds, args.tier, args.jobs, tc["opts"], wall_budget=args.budget)
+    step = max(1, len(seeds) // 20)
+
+    def progress(n):
+        if n % step == 0:
+            print(f"[{prop} {args.tier}] {n}/{len(seeds)} runs, {REAL_PERF() - t0:.0f}s", file=sys.stderr, flush=True)
+
+    results = batch.run_seeds(cfg["engine"], seeds, args.tier, args.jobs, tc["opts"], wall_budget=args.budget, progress=progress if args.tier == "thorough" else None)
     wall = REAL_PERF() - t0
     herr = [r for r in results if r.get("harness_error")]
     if herr:
